@@ -42,6 +42,10 @@ func (p Params) Validate() error {
 		return fmt.Errorf("fee must be positive and less than 1: %s", p.Fee.String())
 	}
 
+	if err := p.PoolCreationFee.Validate(); err != nil {
+		return fmt.Errorf("invalid poolCreationFee: %w", err)
+	}
+
 	if !p.PoolCreationFee.IsPositive() {
 		return fmt.Errorf("poolCreationFee must be positive: %s", p.PoolCreationFee.String())
 	}
@@ -75,6 +79,9 @@ func validatePoolCreationFee(i interface{}) error {
 		return fmt.Errorf("invalid parameter type: %T", i)
 	}
 
+	if err := v.Validate(); err != nil {
+		return fmt.Errorf("invalid poolCreationFee: %w", err)
+	}
 	if !v.IsPositive() {
 		return fmt.Errorf("poolCreationFee must be positive: %s", v.String())
 	}
